@@ -21,6 +21,8 @@ for d in sorted(glob.glob("/verif/seeded/C??-*")):
     if rc is None:
         # no separate re-run of the own check was filed: the full evaluation decides
         rc = 1 if prop in m.get("caught_by", []) else 0
+    if m.get("valid_against"):
+        hist = (hist + "; " if hist else "") + "valid against " + m["valid_against"]
     rows.append((os.path.basename(d), rc, ", ".join(m.get("caught_by", [])), hist, first[:150]))
 print("| change | own check | reported by (quick tier) | note |")
 print("|---|---|---|---|")
